@@ -36,6 +36,7 @@ ASSUMPTIONS = [
 SHARDS = {"quick": 16, "thorough": 16}
 MIN_REACH = {
     "crops_named_by_a_relative_parent_dir": {"quick": 6, "thorough": 60},
+    "crops_whose_function_takes_an_argument_called_fn": {"quick": 8, "thorough": 60},
     "array_scripts_for_a_dozen_and_more_batches": {"quick": 3, "thorough": 4},
     "crops_whose_directory_is_given_as_a_path_object": {"quick": 8, "thorough": 80},
     "scripts_for_a_project_directory_with_pattern_characters": {"quick": 5, "thorough": 40},
@@ -195,11 +196,16 @@ def run_case(ctx, case):
         if case.get("cli"):
             ctx.count("cli_runs_with_function_in_a_module_beside_the_crop")
     w = {"mode": "grid", "combos": [["a", list(range(1, n + 1))]], "names": None, "cases": None, "constants": {}}
+    if isinstance(fn, probe.Probe) and case["idx"] % 2 == 0:
+        # NAME COLLISION: the function also takes an argument called `fn` (which transformation to apply) - the name of
+        # parameters of the pool's submit() and of the library's own helpers: an argument like any other
+        w["combos"].append(["fn", ["square"]])
+        ctx.count("crops_whose_function_takes_an_argument_called_fn")
     sig = {"api": "xyzpy-grow" if case.get("cli") else "gen_cluster_script", "scheduler": str(case.get("scheduler", "")).lower(),
            "mode": case.get("mode"), "state": case["state"], "ids_kind": case.get("ids_kind")}
     with quiet():
         crop = xyzpy.Crop(fn=fn, name=NAME, parent_dir=tmp, batchsize=bs)
-        crop.sow_combos({"a": list(range(1, n + 1))}, verbosity=0)
+        crop.sow_combos({a_: list(v_) for a_, v_ in w["combos"]}, verbosity=0)
     B = crop.num_batches
     allb = list(range(1, B + 1))
     pre = []
